@@ -66,7 +66,7 @@ func Profiles() map[string]*Profile {
 		Judge:     []string{"set", "setitem", "del", "get", "getitem", "exist", "min", "max", "totals", "audit", "open", "reopen"},
 		AuditMode: "get", MaxStores: 1, AllowMem: true, MemOnlyP: 0.3, MinOps: 10, MaxOps: 80, LongRunP: 0.03, LongOps: 1200,
 		MaxColls: 4, MaxKeys: 40, CBChoices: allCB, CustomCmp: true, BigValues: true, PrioModes: []int{0, 1, 2, 3, 4}})
-	add(&Profile{Name: "C02", Weights: mergeW(baseWeights(), map[string]float64{"flush": 4, "reopen": 2.5, "setcoll": 1, "rmcoll": 0.6, "audit": 0.5, "reopen2": 0.5}),
+	add(&Profile{Name: "C02", Weights: mergeW(baseWeights(), map[string]float64{"faultyflush": 0.5, "flush": 4, "reopen": 2.5, "setcoll": 1, "rmcoll": 0.6, "audit": 0.5, "reopen2": 0.5}),
 		Judge:     []string{"flush", "open", "reopen", "audit"},
 		AuditMode: "visit", MaxStores: 1, MinOps: 10, MaxOps: 80, LongRunP: 0.03, LongOps: 800,
 		MaxColls: 4, MaxKeys: 30, CBChoices: allCB, CustomCmp: true, BigValues: true, CheckDecode: true, PrioModes: []int{0, 1, 2, 4}})
@@ -87,7 +87,7 @@ func Profiles() map[string]*Profile {
 		Judge:     []string{"open", "reopen"},
 		AuditMode: "visit", MaxStores: 2, AllowMem: false, MinOps: 10, MaxOps: 80, LongRunP: 0.03, LongOps: 600,
 		MaxColls: 3, MaxKeys: 24, CBChoices: allCB, CustomCmp: true, Nested: true, CheckWrites: true, ROHandleP: 0.2, AdvValues: true, PrioModes: []int{0, 1, 4}})
-	add(&Profile{Name: "C10", Weights: mergeW(mergeW(baseWeights(), snapW), map[string]float64{"visit": 4, "iter": 1, "setcoll": 1, "rmcoll": 0.5, "close": 0.3, "burst": 2, "audit": 3, "snaprevert": 0.2, "copyto": 0.2}),
+	add(&Profile{Name: "C10", Weights: mergeW(mergeW(baseWeights(), snapW), map[string]float64{"faultymut": 0.8, "reopen": 1.2, "visit": 4, "iter": 1, "setcoll": 1, "rmcoll": 0.5, "close": 0.3, "burst": 2, "audit": 3, "snaprevert": 0.2, "copyto": 0.2}),
 		AuditMode: "visit", MaxStores: 3, AllowMem: true, MinOps: 10, MaxOps: 80, LongRunP: 0.03, LongOps: 600,
 		MaxColls: 3, MaxKeys: 24, CBChoices: []int{0, 0, CBAlloc}, CustomCmp: true, Nested: true, CheckFree: true, PrioModes: []int{0, 1, 2, 4}})
 	add(&Profile{Name: "C11", Weights: mergeW(mergeW(baseWeights(), snapW), map[string]float64{"copyto": 3, "setcoll": 0.4, "rmcoll": 0.2, "evict": 3, "snapwrite": 0, "snaprevert": 0}),
@@ -103,7 +103,7 @@ func Profiles() map[string]*Profile {
 		AuditMode: "visit", MaxStores: 1, AllowMem: true, MemOnlyP: 0.25, MinOps: 6, MaxOps: 50, LongRunP: 0.05, LongOps: 600,
 		MaxColls: 2, MaxKeys: 30, CBChoices: []int{0, 0, 0, CBAll}, CustomCmp: true, CheckTree: true, CheckDecode: true, CheckStruct: true,
 		PrioModes: []int{0, 0, 0, 1, 2, 3}, SmallSetsP: 0.6})
-	add(&Profile{Name: "C14", Weights: mergeW(baseWeights(), map[string]float64{"flush": 5, "copyto": 0.5, "setcoll": 0.6, "rmcoll": 0.4, "reopen": 1, "write": 0.3}),
+	add(&Profile{Name: "C14", Weights: mergeW(baseWeights(), map[string]float64{"faultyflush": 0.6, "flush": 5, "copyto": 0.5, "setcoll": 0.6, "rmcoll": 0.4, "reopen": 1, "write": 0.3}),
 		Judge:     []string{"flush", "copyto", "open", "reopen"},
 		AuditMode: "visit", MaxStores: 1, MinOps: 8, MaxOps: 70, LongRunP: 0.03, LongOps: 600,
 		MaxColls: 5, MaxKeys: 30, CBChoices: allCB, CustomCmp: true, BigValues: true, CheckDecode: true, CheckStruct: true, PrioModes: []int{0, 1, 2, 3, 4}})
@@ -691,6 +691,46 @@ func (g *Gen) build(kind string) (Op, bool) {
 			if h.Disk >= 0 {
 				return Op{Kind: "flush", S: h.ID}, true
 			}
+		}
+	case "faultyflush":
+		// a Flush hit by one write fault, retried once the file works again
+		for _, h := range g.permuted(g.writable()) {
+			if h.Disk >= 0 {
+				f := Fault{Disk: h.Disk, Kind: FWriteErr, K: r.Range(1, 14)}
+				if r.Bool(0.5) {
+					f.Kind, f.N = FWriteTorn, r.Range(1, 40)
+				}
+				g.queue = append(g.queue, Op{Kind: "flush", S: h.ID})
+				return Op{Kind: "flush", S: h.ID, Faults: []Fault{f}}, true
+			}
+		}
+	case "faultymut":
+		// a mutation hit by one read fault (only reaches the file when the
+		// tree is not fully cached), followed by a successful one
+		for _, h := range g.permuted(g.writable()) {
+			if h.Disk < 0 {
+				continue
+			}
+			name, cc, mc := g.pickColl(h)
+			if mc == nil {
+				continue
+			}
+			f := Fault{Disk: h.Disk, Kind: FReadErr, K: r.Range(1, 20)}
+			k := g.pickKey(cc, mc, 0.5)
+			op := Op{Kind: "setitem", S: h.ID, C: name, Key: k, Val: g.value(false), Faults: []Fault{f}}
+			if cc != nil {
+				op.Prio = g.prio(cc, mc, k)
+			}
+			if r.Bool(0.3) {
+				op = Op{Kind: "del", S: h.ID, C: name, Key: g.pickKey(cc, mc, 0.9), Faults: []Fault{f}}
+			}
+			k2 := g.pickKey(cc, mc, 0.3)
+			op2 := Op{Kind: "setitem", S: h.ID, C: name, Key: k2, Val: g.value(false)}
+			if cc != nil {
+				op2.Prio = g.prio(cc, mc, k2)
+			}
+			g.queue = append(g.queue, op2)
+			return op, true
 		}
 	case "reopen", "reopen2":
 		for _, h := range g.permuted(g.writable()) {
